@@ -55,24 +55,30 @@ Section Knobs.
   Variable cf : cfg F.
   Notation mul := (e_mul E). Notation div := (e_div E). Notation ltb := (e_ltb E).
 
-  Definition inlim (l : option (F * F)) (v : F) : Prop := out_of_limits E l v = false.
+  Definition inlim (l : option (option F * option F)) (v : F) : Prop := out_of_limits E l v = false.
 
   (* every knob inside its closed limits: not (v < lo) and not (hi < v) *)
-  Fixpoint lims_ok (lims : list (option (F * F))) (k : list F) : Prop :=
+  Fixpoint lims_ok (lims : list (option (option F * option F))) (k : list F) : Prop :=
     match lims, k with
     | l :: lims', v :: k' => inlim l v /\ lims_ok lims' k'
     | _, _ => True
     end.
   (* the inactive knobs inside their limits *)
-  Fixpoint lims_ok_in (act : list bool) (lims : list (option (F * F))) (k : list F) : Prop :=
+  Fixpoint lims_ok_in (act : list bool) (lims : list (option (option F * option F))) (k : list F) : Prop :=
     match act, lims, k with
     | a :: act', l :: lims', v :: k' => (a = false -> inlim l v) /\ lims_ok_in act' lims' k'
     | [], l :: lims', v :: k' => inlim l v /\ lims_ok_in [] lims' k'
     | _, _, _ => True
     end.
 
-  Lemma inlim_spec lo hi v : inlim (Some (lo, hi)) v <-> ltb v lo = false /\ ltb hi v = false.
-  Proof. unfold inlim, out_of_limits. rewrite orb_false_iff. tauto. Qed.
+  (* inside the closed limits, on each side that is given *)
+  Lemma inlim_spec lo hi v : inlim (Some (lo, hi)) v <->
+    (forall a, lo = Some a -> ltb v a = false) /\ (forall b, hi = Some b -> ltb b v = false).
+  Proof.
+    unfold inlim, out_of_limits, below, above. rewrite orb_false_iff. split.
+    - intros [H1 H2]. split; intros c ->; auto.
+    - intros [H1 H2]. split; [destruct lo; auto|destruct hi; auto].
+  Qed.
 
   Lemma lims_ok_nth lims k : lims_ok lims k ->
     forall i l v, nth_error lims i = Some l -> nth_error k i = Some v -> inlim l v.
